@@ -95,4 +95,39 @@ def ast (args : List String) : String :=
         | .panic => "PANIC"
   | _ => "BADARG"
 
+/-- `CMPX <srchex>`: the two-step public route (`Prog::new_with_scope`, `Bin::compile_prog`, `Bin::serialize`): with the returned
+scope (R1), a second time against the scope the first compilation left behind (R2), against `Scope::default()` (R3) -/
+def cmpx (args : List String) : String :=
+  match args with
+  | [src] =>
+    match fromHex src with
+    | none => "BADARG"
+    | some b =>
+      match utf8Decode b with
+      | none => "NOTUTF8"
+      | some cps =>
+        let showR (r : Out Bytes) : String := match r with
+          | .ok img => s!"OK {hexOrDash img}"
+          | .err => "ERR"
+          | .panic => "PANIC"
+        let ser (r : Out (Bin × Scope)) : Out Bytes := match r with
+          | .ok (bin, _) => bin.serialize
+          | .err => .err
+          | .panic => .panic
+        match newWithScope 1 (cps.map Char.ofNat) with
+        | .err => "R1 ERR | R2 ERR | R3 ERR"
+        | .panic => "PANIC"
+        | .ok (evs, sc) =>
+          let c1 := compileProg evs sc
+          let sc1 := match c1 with | .ok (_, s) => s | _ => sc
+          let c2 := compileProg evs sc1
+          let c3 := compileProg evs (Scope.new 1)
+          let rs := [ser c1, ser c2, ser c3]
+          if rs.any (fun r => match r with | .panic => true | _ => false) || [c1, c2, c3].any (fun r => match r with | .panic => true | _ => false)
+          then "PANIC"
+          else
+            let r2 := match c1 with | .ok _ => showR (ser c2) | _ => "-"
+            s!"R1 {showR (ser c1)} | R2 {r2} | R3 {showR (ser c3)}"
+  | _ => "BADARG"
+
 end Portus.Driver
